@@ -319,8 +319,13 @@ fn determinism(eng: &Engine, def: &CheckDef, tier: Tier, seed: u64, n: u64) -> R
     if ha.len() as u64 != n || hb.len() as u64 != n {
         // deaths make runs incomplete; compare what both have
     }
+    // a run in which a worker was killed as hung is cut at a point that depends on CPU accounting, not on the seed
+    let hung: BTreeSet<u64> = a.deaths.iter().chain(b.deaths.iter()).filter(|d| d.status == "hang").map(|d| d.run).collect();
     let mut compared = 0;
     for (run, va) in &ha {
+        if hung.contains(run) {
+            continue;
+        }
         if let Some(vb) = hb.get(run) {
             compared += 1;
             if va != vb {
